@@ -20,7 +20,7 @@ KF_KINDS = {
     "tz": "schema-timezone-pattern",
     "init-false": "schema-init-false-field",
     "union-pack": "union-speculative-packer",
-    "ann-alias": "schema-annotated-alias-ignored",
+    "omit-none-required": "schema-omit-none-required",
 }
 
 _modn = [0]
@@ -92,6 +92,7 @@ def json_key(k) -> str:
 class Sites:
     def __init__(self, tbl, m, all_refs, doc=None):
         self.tbl, self.m, self.all_refs, self.doc = tbl, m, all_refs, doc
+        self.ntd = False        # named tuples are serialized as dicts at the current position
         self.out: list[tuple[tuple, str]] = []
         self._enc = {}
         clash = {}
@@ -254,19 +255,29 @@ class Sites:
             e2 = {"T": t[2][0]} if k == "gdata" else {}
             if self.all_refs and d["clsname"] in self.clash_names:
                 self.out.append((path, "bare-name"))
+            cfg = d.get("cfg") or {}
+            saved = self.ntd
             for f in d["fields"]:
                 key = f["alias"] if f["alias"] is not None else f["name"]
                 if not f["init"]:
                     self.out.append((path, "init-false"))
-                if f.get("alias_ann") is not None and f.get("alias_meta") is None and \
-                        f["alias_ann"] != (f["alias_cfg"] if f.get("alias_cfg") is not None else f["name"]):
-                    self.out.append((path, "ann-alias"))
-                self.walk(f["type"], getattr(v, f["name"]), path + (key,), e2)
+                fv = getattr(v, f["name"])
+                if cfg.get("omit_none") and fv is None:
+                    # the key is dropped; for a field without default the schema still requires it (known finding)
+                    if f["default"] is None and f["init"]:
+                        self.out.append((path, "omit-none-required"))
+                    continue
+                # class-wide option of this owner, overridden per field; nested dataclasses use their own
+                self.ntd = {"as_dict": True, "as_list": False}.get(f.get("nt_override"), bool(cfg.get("nt_as_dict")))
+                try:
+                    self.walk(f["type"], fv, path + (key,), e2)
+                finally:
+                    self.ntd = saved
             return
         if k == "nt":
             d = tbl.by_name[t[1]]
             for i, f in enumerate(d["fields"]):
-                self.walk(f["type"], v[i], path + (i,))
+                self.walk(f["type"], v[i], path + ((f["name"],) if self.ntd else (i,)))
             return
         if k == "td":
             d = tbl.by_name[t[1]]
@@ -299,7 +310,7 @@ class Sites:
 
 
 VALIDATOR_OF = {"flag": {"enum", "const"}, "set-collision": {"uniqueItems"}, "tz": {"pattern"},
-                "init-false": {"additionalProperties"}, "ann-alias": {"additionalProperties", "required"}}
+                "init-false": {"additionalProperties"}, "omit-none-required": {"required"}}
 
 
 def explain(err, sites) -> set:
@@ -321,7 +332,7 @@ def explain(err, sites) -> set:
             if "propertyNames" in sp:
                 kinds.add(kind)
         elif err.validator in VALIDATOR_OF[kind]:
-            if kind in ("init-false", "ann-alias") and "propertyNames" in sp:
+            if kind in ("init-false", "omit-none-required") and "propertyNames" in sp:
                 continue
             kinds.add(kind)
     return kinds
@@ -436,17 +447,11 @@ def run_case(ctx, tbl, root, vspecs, src, probe):
                 continue
             got = ds.get("required", [])
             if got != exp_req or list(ds.get("properties", {})) != exp_props:
-                # known finding: the schema ignores an Annotated Alias that decides the serialized key
-                def skey(f):
-                    return f["schema_alias"] if f.get("schema_alias") is not None else f["name"]
-                kf_req = [skey(f) for f in d["fields"] if f["init"] and f["default"] is None]
-                kf_props = [skey(f) for f in d["fields"] if f["init"]]
-                ann = got == kf_req and list(ds.get("properties", {})) == kf_props
                 ctx.fail(f"'required'/'properties' of {d['clsname']} are {got}/{list(ds.get('properties', {}))}, serialized keys of the fields "
                          f"without default are {exp_req} (all: {exp_props})",
                          {**base, "check": "required", "class": pn, "observed": {"required": got, "properties": list(ds.get('properties', {}))},
                           "expected": {"required": exp_req, "properties": exp_props}},
-                         {"kind": KF_KINDS["ann-alias"] if ann else "required-mismatch"})
+                         {"kind": "required-mismatch"})
             n += 1
 
         # ---- every value validates under every combo -----------------------------
@@ -519,6 +524,16 @@ FIXED_CASES = [
                       "        serialize_by_alias = True\n        aliases = {'y': 'cfg_y', 'w': 'cfg_w'}\n", "A3", ["A3(2)", "A3(2, 3)"]),
     ("literal bool/int", "class LE(enum.IntEnum):\n    HI = 1\n", "Tuple[Literal[0, 1, False, True], Literal[True, 1], Literal[LE.HI, True, 'a']]",
      ["(False, 1, True)", "(0, True, LE.HI)", "(True, 1, 'a')"]),
+    ("namedtuple option vs field override",
+     "class Pt(NamedTuple):\n    a: int\n    b: Optional[str] = None\n@dataclass\nclass Sh(DataClassDictMixin):\n"
+     "    p: Pt\n    l: Pt = field(metadata=field_options(serialize='as_list'))\n    d: List[Pt] = field(default_factory=list)\n"
+     "    class Config(BaseConfig):\n        namedtuple_as_dict = True\n"
+     "@dataclass\nclass Sh2(DataClassDictMixin):\n    p: Pt\n    o: Pt = field(metadata=field_options(serialize='as_dict'))\n",
+     "Tuple[Sh, Sh2]", ["(Sh(Pt(1), Pt(2, 's'), [Pt(3)]), Sh2(Pt(4), Pt(5)))"]),
+    ("omit_none owner, nested optionals",
+     "@dataclass\nclass Sv(DataClassDictMixin):\n    a: List[Optional[int]]\n    m: Dict[str, Optional[str]]\n    t: Tuple[Optional[int], int]\n"
+     "    o: Optional[int] = None\n    class Config(BaseConfig):\n        omit_none = True\n", "Sv",
+     ["Sv([1, None], {'k': None}, (None, 2))", "Sv([], {}, (1, 2), 5)"]),
     ("same name", "def mk(t):\n    @dataclass\n    class P(DataClassDictMixin):\n        v: t\n    return P\nP1 = mk(int)\nP2 = mk(str)\n"
                   "@dataclass\nclass HP(DataClassDictMixin):\n    a: P1\n    b: P2\n", "HP", ["HP(P1(1), P2('s'))"]),
 ]
@@ -736,6 +751,12 @@ def model_part(ctx: vlib.Ctx):
                 ctx.hist("model_skipped", "unsupported:" + type(e).__name__)
                 continue
             em = M.Emitter(tbl, m.__dict__)
+            datas = [d for d in tbl.decls if d["kind"] == "data"]
+            if any((d.get("cfg") or {}).get("nt_as_dict") or any(f.get("nt_override") == "as_dict" for f in d["fields"]) for d in datas):
+                # NamedTuple-as-dict positions are outside the model grammar (covered by the direct oracle only)
+                ctx.hist("model_skipped", "namedtuple-as-dict")
+                continue
+            omit = any((d.get("cfg") or {}).get("omit_none") for d in datas)   # enc_ok describes default options: all keys present
             clash = M.has_name_clash(tbl)
             try:
                 env_t, ty_t = em.env(), em.ty(root)
@@ -785,7 +806,7 @@ def model_part(ctx: vlib.Ctx):
                 collide = any(kd == "set-collision" for _, kd in st.out)
                 if collide:       # excluded by the conformance predicate (enc_ok demands distinct element encodings)
                     ctx.hist("model_skipped", "enc_ok:set-wire-collision")
-                if usafe and not collide:
+                if usafe and not collide and not omit:
                     c_cases.append(f"({env_t}, {ty_t}, {vt}, {dt}, {M.cbool(real_valid)})")
                     c_descr.append(G.ty_src(root, tbl, [])[:120] + " | " + G.val_src(vs)[:120])
                     c_src.append({"source": src, "value": G.val_src(vs), "document": doc})
@@ -857,7 +878,7 @@ def model_part(ctx: vlib.Ctx):
 
 def alias_part(ctx):
     """field keys: K6A (schema side) against K4 (serializer side); (T) validation of the K6A translation"""
-    ctx.theorems("props/C06_alias.vo", ["C06_schema_alias_spec", "C06_alias_agrees_partial", "C06_annotated_alias_refuted"],
+    ctx.theorems("props/C06_alias.vo", ["C06_schema_alias_spec", "C06_alias_agrees"],
                  kernels=["K4", "K6A"])
     if not ctx.kernel_report.get("K6A", {}).get("ok"):
         return
@@ -872,7 +893,7 @@ def alias_part(ctx):
         cfg = r.choice(vals) + "c" if r.random() < 0.5 else None
         ann = r.choice(vals) + "a" if r.random() < 0.3 else None
         other = r.choice(vals) + "o" if r.random() < 0.5 else None      # Config.aliases entry of another field
-        ts = "int" if ann is None else f"Annotated[int, Alias({ann!r})]"
+        ts = "int" if ann is None else f"Annotated[int, 'note', Alias({ann!r})]"
         fsrc = f"    {fname}: {ts}" + (f" = field(metadata=field_options(alias={meta!r}))" if meta is not None else "")
         al = {}
         if other is not None:
@@ -895,13 +916,14 @@ def alias_part(ctx):
             unload_module(m)
         md = "(KDict [])" if meta is None else f"(KDict [(KStr \"alias\", KStr {vlib.coq_str(meta)})])"
         alt = vlib.coq_list([f"({vlib.coq_str(k)}, {vlib.coq_str(v)})" for k, v in al.items()])
-        cases.append(f"({md}, {alt}, {vlib.coq_str(fname)}, {vlib.coq_str(key)})")
+        anns = "(KTuple [])" if ann is None else f"(KTuple [enc_ann AOther; enc_ann (AAlias {vlib.coq_str(ann)})])"
+        cases.append(f"({md}, {anns}, {alt}, {vlib.coq_str(fname)}, {vlib.coq_str(key)})")
         descr.append(f"{fname}: meta={meta} ann={ann} cfg={cfg} -> {key}")
         ctx.hist("alias_sources", "+".join(x for x, y in (("meta", meta), ("ann", ann), ("cfg", cfg)) if y is not None) or "none")
-    okf = ("fun c => match c with (md, al, fname, exp) => match schema_alias md (enc_aliases al) (KStr fname) with "
+    okf = ("fun c => match c with (md, anns, al, fname, exp) => match schema_alias md anns (enc_aliases al) (KStr fname) with "
            "Ok (KStr s) => String.eqb s exp | _ => false end end")
     bad, log = vlib.coq_bad_idx("c06_k6a", "PyK_alias KeyModel KeyImpl", "From VerifGen Require Import K6A.", "", cases, okf,
-                                "kv * list (string * string) * string * string", shard=500, needs=["gen/K6A.vo", "theories/KeyImpl.vo"])
+                                "kv * kv * list (string * string) * string * string", shard=500, needs=["gen/K6A.vo", "theories/KeyImpl.vo"])
     name = "K6A-translation-vs-python(Instance.alias)"
     if bad is None:
         ctx.correspondence(name, len(cases), -1, log)
@@ -942,11 +964,10 @@ def run_fixed(ctx, descr, src, vals):
                 ctx.count(("fixed", descr, vsrc, dl, ar))
                 if errs:
                     e = errs[0]
-                    kind = {"flag": "flag", "int keys": "nonstr-key", "same name": "bare-name", "annotated alias": "ann-alias"}.get(descr)
+                    kind = {"flag": "flag", "int keys": "nonstr-key", "same name": "bare-name"}.get(descr)
                     ok_kf = (kind == "flag" and e.validator == "enum" and vsrc == "F.A | F.B") or \
                             (kind == "nonstr-key" and "propertyNames" in list(e.absolute_schema_path) and vsrc == "{1: 'a'}") or \
-                            (kind == "bare-name" and ar) or \
-                            (kind == "ann-alias" and e.validator in ("additionalProperties", "required"))
+                            (kind == "bare-name" and ar)
                     ctx.fail(f"{descr}: {vsrc} rejected: {e.message[:100]}",
                              {"entry": "fixed", "source": src, "dialect": dl, "all_refs": ar, "check": "validate", "value": vsrc,
                               "document": doc, "schema": s, "observed": e.message[:200], "expected": "no validation error"},
